@@ -165,6 +165,12 @@ class Quot:
     def __init__(self, num, den):
         self.num, self.den = num, den
 
+    def key(self):
+        """Structural key (two quotients with the same key are the same number; different keys may still be equal numbers)."""
+        nk = self.num.key() if hasattr(self.num, "key") else id(self.num)
+        dk = self.den.key() if hasattr(self.den, "key") else id(self.den)
+        return ("quot", nk, dk)
+
 
 class _NotImpl:
     def __repr__(self):
@@ -626,6 +632,7 @@ class Interp:
         self.nonneg_keys = set()     # keys of polynomials known to be sums of squares by construction (x . x)
         self.len_objs = []           # the objects returned by len(<collection>) (identity matters: `n = len(xs); if n > 100`)
         self.maybe_nonfinite = set()  # prefixes of symbols that stand for possibly non-finite numbers (results of an uninterpreted solve)
+        self.int_objs = {}            # id(Poly) -> Poly for values that are Python ints (int literals, len(), range(), sums of ints)
         self.while_depth_at = {}
         self.for_depth_at = {}       # call depth -> number of enclosing `for` statements being executed in that frame
         self.taint = {}              # id(Poly) -> (kind, object): "len" = a collection size, "counter" = a range() loop counter
@@ -1537,6 +1544,22 @@ class Interp:
             owner.data[:] = [list(r) for r in zip(*base.data)]
             return
         idx = self.ev_index(sl, env)
+        if isinstance(idx, NonZeroMask):
+            raise self.unsupported("store through a value-dependent mask", node)
+        if isinstance(idx, BoolArr):
+            # arr[mask] = value(s): the selected entries, in row-major order
+            flat_n = len(base.flat())
+            if len(idx.flat) != flat_n:
+                raise PathRaise("IndexError(boolean index did not match indexed array)", self.where(node))
+            sel = [k for k, f_ in enumerate(idx.flat) if f_]
+            vals = self.flat_values(v, len(sel), node)
+            for k, x in zip(sel, vals):
+                if base.ndim == 2:
+                    base.data[k // base.shape[1]][k % base.shape[1]] = _elem(x)
+                else:
+                    base.data[k] = _elem(x)
+            self.after_write(base)
+            return
         if isinstance(idx, IndexSet):
             vals = self.flat_values(v, len(idx.pairs), node)
             for (i, j), x in zip(idx.pairs, vals):
@@ -1547,7 +1570,7 @@ class Interp:
                 n = len(base.data[idx])
                 base.data[idx] = [_elem(x) for x in self.flat_values(v, n, node)]
             else:
-                base.data[idx] = _elem(self.scalar(v, node))
+                base.data[idx] = _elem(v if isinstance(v, Quot) else self.scalar(v, node))
             return
         # 2-D
         if not isinstance(idx, tuple):
@@ -1688,11 +1711,21 @@ class Interp:
         v = n.value
         if isinstance(v, bool) or v is None or isinstance(v, str):
             return v
-        if isinstance(v, (int, float)):
+        if isinstance(v, int):
+            return self.as_int(Poly.const(v))
+        if isinstance(v, float):
             return Poly.const(v)
         if isinstance(v, complex):
             return Cx(Poly.const(v.real), Poly.const(v.imag))
         raise self.unsupported("constant %r" % (v,), n)
+
+    def as_int(self, p):
+        """Tag a Poly object as a Python int (as opposed to a float with an integer value): `type(x) is int` tells them apart."""
+        self.int_objs[id(p)] = p
+        return p
+
+    def is_int_obj(self, p):
+        return isinstance(p, Poly) and self.int_objs.get(id(p)) is p
 
     def module_of_current(self):
         fn = self.fn_stack[-1] if self.fn_stack else None
@@ -2081,8 +2114,9 @@ class Interp:
             return l is None and r is None
         if isinstance(l, bool) or isinstance(r, bool):
             return isinstance(l, bool) and isinstance(r, bool) and l == r
-        if isinstance(l, ClassRef) and isinstance(r, ClassRef):
-            return l.name == r.name
+        lc, rc = self.as_class(l), self.as_class(r)
+        if lc is not None and rc is not None:
+            return lc.name == rc.name          # `type(x) is int`: the builtin type names and the class references denote the same classes
         if isinstance(l, (Poly, Quot, Wrapped)) and isinstance(r, (Poly, Quot, Wrapped)):
             # `is` on two numbers: whether two equal numbers are one object is an accident of the implementation (small-int
             # cache, where the value came from); unequal numbers are never the same object.  Both outcomes are explored.
@@ -2223,6 +2257,15 @@ class Interp:
     DUNDER_OF = {ast.Add: "add", ast.Sub: "sub", ast.Mult: "mul", ast.Div: "truediv", ast.MatMult: "matmul", ast.Pow: "pow", ast.Mod: "mod"}
 
     def arith(self, op, a, b, node):
+        r = self._arith(op, a, b, node)
+        if isinstance(r, Poly) and op in (ast.Add, ast.Sub, ast.Mult, ast.Mod, ast.FloorDiv, ast.Pow) and self.is_int_obj(a) and self.is_int_obj(b) \
+                and r.const_value() is not None and int(r.const_value()) == r.const_value():
+            if r is a or r is b or id(r) in self.taint:
+                return self.as_int(r) if id(r) in self.taint else self.as_int(Poly(dict(r.t)))
+            return self.as_int(r)
+        return r
+
+    def _arith(self, op, a, b, node):
         if isinstance(a, Obj) or isinstance(b, Obj):
             nm = self.DUNDER_OF.get(op)
             if nm is not None:
@@ -2971,6 +3014,9 @@ class Interp:
                 return Opaque("callable", lambda rhs, H_=args[0]: solver(H_, rhs))
             if leaf == "splu" and len(args) >= 1:
                 return Opaque("lu", args[0])
+            if leaf in ("lstsq", "pinv", "pinvh", "lsqr", "lsmr", "cg", "cgs", "gmres", "lgmres", "bicg", "bicgstab", "minres", "qmr", "spilu"):
+                raise LossyOperation("%s in place of the exact linear solve (least-squares / iterative / incomplete solvers return an "
+                                     "approximation, and something even for a singular system)" % origin, self.where(n))
         if leaf not in ("closing", "islice"):
             args = [a.drain() if isinstance(a, LazyIter) else a for a in args]
         if origin.startswith("logging") and leaf == "getLogger":
@@ -3447,6 +3493,22 @@ class Interp:
                         "splitlines", "partition", "find", "count", "isspace", "index"):
                 if all(isinstance(a, (str, type(None))) or (isinstance(a, Poly) and a.const_value() is not None) for a in args):
                     pa = [int(a.const_value()) if isinstance(a, Poly) else a for a in args]
+                    if "\x01" in v and pa and isinstance(pa[0], str) and pa[0]:
+                        # the text contains numbers in unknown spellings: an operation whose outcome depends on the characters *inside* a
+                        # number (a digit, a sign, a dot, an exponent letter) has no spelling-independent result
+                        numchars = set("0123456789+-.eE_")
+                        if name in ("strip", "lstrip", "rstrip"):
+                            r0 = getattr(v, name)(*pa)
+                            eats = set(pa[0]) & numchars
+                            if eats and ((name != "rstrip" and r0.startswith("\x01")) or (name != "lstrip" and r0.endswith("\x02"))):
+                                raise LossyOperation("str.%s(%r) next to a number: the character set contains %s, which can be the first / last "
+                                                     "characters of the number itself" % (name, pa[0], sorted(eats)), self.where(n))
+                        elif name in ("split", "rsplit", "replace", "partition", "find", "count", "index") and set(pa[0]) <= numchars:
+                            raise LossyOperation("str.%s(%r) on text that contains numbers: the argument can occur inside a number" % (name, pa[0]),
+                                                 self.where(n))
+                        elif name == "startswith" and v.startswith("\x01") and set(pa[0]) <= numchars or \
+                                name == "endswith" and v.endswith("\x02") and set(pa[0]) <= numchars:
+                            raise LossyOperation("str.%s(%r) tests the spelling of a number" % (name, pa[0]), self.where(n))
                     try:
                         r = getattr(v, name)(*pa)
                     except ValueError:
@@ -3620,6 +3682,8 @@ class Interp:
             return k.obj
         if isinstance(k, tuple) and len(k) == 2 and k[0] == "num":
             return Poly.const(k[1])
+        if isinstance(k, tuple) and len(k) == 2 and k[0] == "poly":
+            return Poly(dict(k[1]))
         if isinstance(k, tuple) and len(k) == 3 and k[0] == "enum":
             return self.enum_member(k[1], k[2])
         if isinstance(k, tuple):
@@ -3636,7 +3700,7 @@ class Interp:
         if isinstance(v, bool):
             return BOOL
         if isinstance(v, Poly):
-            return FLOAT
+            return INT if self.is_int_obj(v) else FLOAT
         if v is None:
             return NONETYPE
         if isinstance(v, list):
@@ -3681,7 +3745,7 @@ class Interp:
             if isinstance(v, Arr):
                 return Poly.const(v.shape[0])
             if isinstance(v, (list, tuple, dict, str)):
-                r_ = Poly.const(len(v))
+                r_ = self.as_int(Poly.const(len(v)))
                 if isinstance(v, (list, tuple, dict)):
                     self.len_objs.append(r_)   # the size of a collection (see `cmp`: size thresholds are recorded)
                     self.taint[id(r_)] = ("len", r_)
@@ -3711,7 +3775,7 @@ class Interp:
             raise self.unsupported("len of %r" % (v,), n)
         if name == "range":
             iv = [self.intval(a, n) for a in args]
-            out_ = [Poly.const(i) for i in range(*iv)]
+            out_ = [self.as_int(Poly.const(i)) for i in range(*iv)]
             if len(args) == 3 and id(args[1]) in self.taint and iv[2] >= 2:
                 self.events.append(("size-threshold", "%s taken modulo / divided by %s at %s" % (
                     "a collection size" if self.taint[id(args[1])][0] == "len" else "an iteration counter", iv[2], self.where(n))))
@@ -3725,7 +3789,7 @@ class Interp:
             return LazyIter([tuple(x) for x in zip(*[self.iterate(a, n) for a in args])])
         if name == "enumerate":
             start = self.intval(args[1] if len(args) > 1 else kw["start"], n) if (len(args) > 1 or "start" in kw) else 0
-            return LazyIter([(Poly.const(i + start), x) for i, x in enumerate(self.iterate(args[0], n))])
+            return LazyIter([(self.as_int(Poly.const(i + start)), x) for i, x in enumerate(self.iterate(args[0], n))])
         if name == "reversed":
             return LazyIter(list(reversed(self.iterate(args[0], n))))
         if name in ("set", "frozenset"):
@@ -4345,6 +4409,9 @@ class Interp:
             if sq.const_value() is not None:
                 return self.np_sqrt(sq, n)
             return poly.atom("norm", sq)
+        if name in ("linalg.lstsq", "linalg.pinv") and "spsolve" in self.overrides:
+            raise LossyOperation("np.%s in place of the exact linear solve (a least-squares / pseudo-inverse solution truncates small singular "
+                                 "values and returns a minimum-norm answer for a singular system)" % name, self.where(n))
         if name == "linalg.solve" and "spsolve" in self.overrides and len(args) == 2:
             return self.overrides["spsolve"](args[0], args[1])
         if name == "linalg.inv":
@@ -4480,7 +4547,8 @@ class Interp:
                            self.decide_sign(d + T, {0, 1}, "%s >= -tolerance" % d.short(40)))
             if name == "allclose":
                 return all(res)
-            return BoolArr(res, (len(res),)) if isinstance(a, Arr) or isinstance(b, Arr) else res[0]
+            shp_ = a.shape if isinstance(a, Arr) else (b.shape if isinstance(b, Arr) else None)
+            return BoolArr(res, shp_ if shp_ is not None and len(shp_) <= 2 else (len(res),)) if isinstance(a, Arr) or isinstance(b, Arr) else res[0]
         if name == "where" and len(args) == 3:
             c, a, b = args
             if isinstance(c, bool):
@@ -4513,6 +4581,13 @@ class Interp:
                     raise PathRaise("ValueError(shape mismatch: objects cannot be broadcast to a single shape)", self.where(n))
                 out_.append(dims_.pop() if dims_ else 1)
             return tuple(Poly.const(x) for x in reversed(out_))
+        if name == "remainder" and len(args) == 2:
+            # IEEE remainder x - m*round_half_even(x/m): congruent to x modulo m and in the *closed* interval [-m/2, m/2] -- at the
+            # boundary the result is not a function of the residue class (remainder(pi, 2pi) = pi, remainder(-pi, 2pi) = -pi)
+            x_, m_ = self.scalar(args[0], n), self.scalar(args[1], n)
+            half = m_.scale(Fraction(1, 2))
+            self.events.append(("closed-wrap", "remainder(x, %s) at %s" % (m_.short(20), self.where(n))))
+            return Wrapped(x_ + half, m_, -half)
         if name == "tri":
             rows_ = self.intval(args[0], n)
             cols_ = args[1] if len(args) > 1 else kw.get("M")
@@ -4762,6 +4837,13 @@ class Interp:
     def absval(self, v, n):
         if isinstance(v, Arr):
             return v.map(lambda x: self.absval(x, n))
+        if isinstance(v, Quot) and isinstance(v.num, Poly) and isinstance(v.den, Poly):
+            if self.known_positive(v.den):
+                return Quot(self.absval(v.num, n), v.den)
+            if self.known_positive(-v.den):
+                return Quot(self.absval(v.num, n), -v.den)
+            pr = v.num * v.den
+            return v if self.decide_sign(pr, {0, 1}, "(%s)/(%s) >= 0" % (v.num.short(30), v.den.short(30))) else Quot(-v.num, v.den)
         x = self.scalar(v, n)
         c = x.const_value()
         if c is not None:
@@ -4912,6 +4994,11 @@ POSE_LEN = {"PoseR2": 2, "PoseR3": 3, "PoseSE2": 3, "PoseSE3": 7}
 def pose_len(pkg, cls):
     """Ambient length of a pose class, derived from its own __new__ when possible (falls back to the table)."""
     return POSE_LEN[cls]
+
+
+def int_const(it, value):
+    """A Python int handed to the analysed code by the harness (an id, a count)."""
+    return it.as_int(Poly.const(value))
 
 
 def param_const(it, value):
